@@ -504,6 +504,12 @@ def resolve_case(r):
     return {k: r[k] for k in ("op", "tzvar", "tzfiles", "tzpaths", "vendored", "tzname", "name", "impl", "spec")}
 
 
+def ir_request(spec, req):
+    """the same request for `fact.runir`: executed by the interpreter of the programs translated from the source"""
+    assert req.startswith("fact.run ")
+    return "fact.runir %s %s" % ("str" if spec == "tzstr" else "offset", req[len("fact.run "):])
+
+
 # ======================================================================================
 # correspondence
 # ======================================================================================
@@ -513,13 +519,18 @@ def correspondence(ctx):
     # ---- (a) scripted single-thread runs vs the model ----
     runs = scripted_runs(ctx, ctx.budget(80, 1000))
     resp = ctx.driver([r["req"] for r in runs])
-    for r, m in zip(runs, resp):
+    resp_ir = ctx.driver([ir_request(r["spec"], r["req"]) for r in runs])      # translator validation
+    for r, m, mi in zip(runs, resp, resp_ir):
         diffs = S.compare_script(r["obs"], S.parse_model(m))
         ctx.count("scripted_%s" % r["spec"])
         ctx.count("scripted_ops", len(r["ops"]))
         if diffs:
             ctx.mismatch("fact.run(script)", {"spec": r["spec"], "cap": r["cap"], "ops": r["ops"]}, r["obs"], {"model": m, "diffs": diffs})
-    ctx.traces += len(runs)
+        diffs = S.compare_script(r["obs"], S.parse_model(mi))
+        if diffs:
+            ctx.mismatch("fact.runir(script): translated programs vs implementation", {"spec": r["spec"], "cap": r["cap"], "ops": r["ops"]},
+                         r["obs"], {"model": mi, "diffs": diffs})
+    ctx.traces += 2 * len(runs)
     # ---- (b) threads, statement by statement ----
     truns = threaded_runs(ctx)
     for msg in ctx._c18_shape[:3]:
@@ -528,7 +539,8 @@ def correspondence(ctx):
         ctx.mismatch("source-shape", msg, "statement table could not be built", "Model/Factory.lean statement list")
     truns = [r for r in truns if not r["unmapped"]]
     resp = ctx.driver([r["req"] for r in truns])
-    for r, m in zip(truns, resp):
+    resp_ir = ctx.driver([ir_request(r["spec"], r["req"]) for r in truns])
+    for r, m, mi in zip(truns, resp, resp_ir):
         rec = {"labels": r["labels"], "expect": r["expect"], "rets": r["rets"], "all_returned": r["all_returned"],
                "strong": r["strong"], "weak": r["weak"], "cap": r["cap_now"]}
         diffs = S.compare_threads(rec, S.parse_model(m))
@@ -538,7 +550,14 @@ def correspondence(ctx):
             ctx.mismatch("fact.run(threads)", {k: r[k] for k in ("spec", "cap", "scripts", "schedule", "policy")},
                          {"rets": r["rets"], "strong": r["strong"], "weak": r["weak"], "errors": r["errors"]},
                          {"model": m, "diffs": diffs})
-    ctx.traces += len(truns)
+        diffs = S.compare_threads(rec, S.parse_model(mi))
+        if diffs:
+            ctx.mismatch("fact.runir(threads): translated programs vs implementation",
+                         {k: r[k] for k in ("spec", "cap", "scripts", "schedule", "policy")},
+                         {"rets": r["rets"], "strong": r["strong"], "weak": r["weak"], "errors": r["errors"]},
+                         {"model": mi, "diffs": diffs})
+    ctx.count("translator_validation_runs", len(runs) + len(truns))
+    ctx.traces += 2 * len(truns)
     # ---- gettz name resolution vs the model (`gettz.resolve`) ----
     rr = resolve_runs(ctx)
     root = ctx._c18_resolve_root
